@@ -1,5 +1,5 @@
 P = {
-    "gens": ["C13sentlist"],
+    "gens": ["C13sentlist", "C13realpath"],
     "theorems": ["C13_no_return", "C13_no_duplicate", "C13_memory_survives", "C13_failure_reopens"],
     "rule": "scenarios on a real routing.Core per algorithm in {epidemic, spray, binary_spray, prophet, dtlsr (broadcast "
             "bundles), sensor-mule over epidemic} with 1..5 peers: 4 fixed scenarios per algorithm (failed then healthy "
@@ -12,7 +12,14 @@ P = {
             "a peer / another node, clock-less or not, for elsewhere / a peer's node / an endpoint of this node, submission, peer "
             "up / second sender / down, retry tick, failure script on/off, restart, re-reception of an earlier bundle with any "
             "previous node, store expiry + cleaning, spray metadata collection) "
-            "closed by a calm phase (all peers up and healthy, two ticks); distinct = distinct case bodies",
+            "closed by a calm phase (all peers up and healthy, two ticks). Peers whose endpoint IDs share the node name and "
+            "differ in the rest (dtn://p/, dtn://p/c2 ...; ipn:5.1, ipn:5.2 ...: different peers for the selection and the "
+            "sent list) in every role - previous node, acknowledged, failed: 3 fixed scenarios per algorithm and naming "
+            "scheme and random histories. Real path (C13realpath): receptions, peer appearances / disappearances written as "
+            "cla.ConvergenceStatus to the channel of a registered convergence layer (-> cla.Manager -> Core.handler), a "
+            "reception immediately followed by 1..3 peer events, some bundles requesting a reception report over slow links, "
+            "rounds closed by a sentinel bundle; epidemic, prophet, dtlsr, mule; judged on the per-peer send log (never to the "
+            "previous node, at most once to a peer) and replayed on the model; distinct = distinct case bodies",
     "assumptions": [
         "ReportFailure is one atomic step (the lost update of two concurrent failure reports is handled under C05/C18)",
         "binary spray: which peer gets the next copy and whether the budget allows it is C18 (the checker does not demand "
